@@ -7,7 +7,9 @@
 (* Hand = 0: every graph of NE statements in which statement k produces    *)
 (*   path k of <<"a","b","c">>, declares any subset of {"s"} + the other   *)
 (*   paths as inputs (statement 1 explicit, 2 implicit, 3 order-only) and  *)
-(*   was observed to read / probe any subset of the other paths.  On this  *)
+(*   was observed to read / probe any subset of the other paths (WithSrc:  *)
+(*   the existing source "s" may be declared; WithProbes: failed probes    *)
+(*   are part of the observations).  On this                               *)
 (*   family TLC proves that the behavioural laws (state invariants over    *)
 (*   all schedules) and the declarative laws (ancestor closure) coincide,  *)
 (*   and that complete graphs are confluent.                               *)
@@ -18,7 +20,7 @@
 (*   violated on the broken ones and nothing on the repaired ones.         *)
 (***************************************************************************)
 EXTENDS BuildSched, TLC, SequencesExt
-CONSTANTS NE, WithProbes, Hand
+CONSTANTS NE, WithProbes, WithSrc, Hand
 
 OutOf(k) == <<"a", "b", "c">>[k]
 Gen == {OutOf(k) : k \in 1..NE}
@@ -99,7 +101,7 @@ VARIABLES G, built, view
 vars == <<G, built, view>>
 
 \* (the choices are enumerated per statement, without a filter: TLC generates exactly the family)
-InChoices(k) == IF k <= NE THEN SUBSET ({"s"} \cup Others(k)) ELSE {{}}
+InChoices(k) == IF k <= NE THEN SUBSET ((IF WithSrc THEN {"s"} ELSE {}) \cup Others(k)) ELSE {{}}
 ObsChoices(k) == IF k <= NE THEN [Others(k) -> ObsVals] ELSE {<<>>}
 Init == /\ IF Hand = 0
            THEN \E i1 \in InChoices(1), i2 \in InChoices(2), i3 \in InChoices(3),
